@@ -18,6 +18,7 @@ func Verif_Step_udp4_arb() {
 	d, cfg, sink, src, min, m := vSetup(false)
 	P := V.Bytes("P", L)
 	N.BoundArb4(P)
+	V.ClockAdvance(time.Duration(V.U32("flight"))) // the reply arrives an arbitrary time after the last send
 	src.Next = append([]byte(nil), P...)
 	resp, err := d.ReceiveProbe(100 * time.Millisecond)
 	if err != nil {
@@ -36,7 +37,9 @@ func Verif_Step_udp4_arb() {
 	if L >= ihl*4+8+1 {
 		qihl = V.Concretize(int(P[ihl*4+8] & 0xf))
 	}
-	pr := vFindProbe(sink, min, ttl)
+	idx := V.Concretize(int(ttl - min))
+	pr := sink.Pkts[idx]
+	V.Assert(resp.RTT == time.Duration(V.NowNs()-sink.Times[idx]), "C05/rtt-send-to-receive-same-probe")
 	V.Assert(vGenuine4(P, ihl, qihl, pr, cfg.LoosenICMPSrc), "C01/genuine")
 	V.Assert(resp.IP == N.Src4(P), "C01/responder")
 	V.Assert(resp.IsDest == V.BytesEq(P[12:16], pr[16:20]), "C04/dest-iff-from-target")
@@ -54,6 +57,7 @@ func Verif_Step_udp6_arb() {
 	d, cfg, sink, src, min, m := vSetup(true)
 	P := V.Bytes("P", L)
 	N.BoundArb6(P)
+	V.ClockAdvance(time.Duration(V.U32("flight"))) // the reply arrives an arbitrary time after the last send
 	src.Next = append([]byte(nil), P...)
 	resp, err := d.ReceiveProbe(100 * time.Millisecond)
 	if err != nil {
@@ -67,7 +71,9 @@ func Verif_Step_udp6_arb() {
 	ttl := resp.TTL
 	V.Assert(V.All(ttl >= min, ttl <= m), "C01/ttl-was-sent")
 	V.Assume(V.All(ttl >= min, ttl <= m))
-	pr := vFindProbe(sink, min, ttl)
+	idx := V.Concretize(int(ttl - min))
+	pr := sink.Pkts[idx]
+	V.Assert(resp.RTT == time.Duration(V.NowNs()-sink.Times[idx]), "C05/rtt-send-to-receive-same-probe")
 	V.Assert(vGenuine6(P, pr, cfg.LoosenICMPSrc), "C01/genuine")
 	V.Assert(resp.IP == N.Src6(P), "C01/responder")
 	V.Assert(resp.IsDest == V.BytesEq(P[8:24], pr[24:40]), "C04/dest-iff-from-target")
